@@ -51,6 +51,12 @@ fn ninfo(id: [u8; 32], tag: usize) -> NodeInfo {
 thread_local! {
     static TALLY: std::cell::RefCell<HashMap<String, u64>> = std::cell::RefCell::new(HashMap::new());
     static SEEN: std::cell::RefCell<HashSet<u64>> = std::cell::RefCell::new(HashSet::new());
+    static VIO_SENT: std::cell::RefCell<HashMap<String, u32>> = std::cell::RefCell::new(HashMap::new());
+}
+/// one written-out sample per component (the Monitor keeps five)
+static SAMPLE_SLOTS: [std::sync::atomic::AtomicBool; 5] = [const { std::sync::atomic::AtomicBool::new(false) }; 5];
+fn take_slot(i: usize) -> bool {
+    !SAMPLE_SLOTS[i].swap(true, std::sync::atomic::Ordering::Relaxed)
 }
 fn tally(k: &str, n: u64) {
     TALLY.with(|t| {
@@ -412,7 +418,7 @@ fn eviction_history(mon: &Monitor, rng: &mut Rng) {
             if ncand >= 1 && nclean >= 1 && cleared != 0 {
                 case_once(mon, ("evict", thr.min(11), tthr_class, kinds_mask, ncand.min(8), cleared));
             }
-            if step + 1 == nev && ncand >= 1 && rng.chance(0.02) && mon.want_sample() {
+            if step + 1 == nev && ncand >= 2 && nclean >= 1 && cleared & 3 != 0 && take_slot(0) {
                 mon.sample(json!({"component": "EvictionManager", "threshold": thr, "trust_threshold": fmt_f(tthr),
                     "peers": model.len(), "candidates_reported": got.iter().take(6).map(|(n, r)| format!("{} {:?}", hex8(n.as_bytes()), r)).collect::<Vec<_>>(),
                     "history_tail": tail(&hist)}));
@@ -629,14 +635,24 @@ fn judge_selection(mon: &Monitor, j: &SelJudge) -> bool {
     }
     if let Some((a, b, rule, how)) = bad {
         let label = rank_label(j.cfg, &dist[a], &dist[b], j.trust[a]);
-        mon.violation(
-            &format!("rank/{rule}/{}/{label}", j.level),
+        let sig = format!("rank/{rule}/{}/{label}", j.level);
+        // the Monitor keeps the first three witnesses per signature; do not build more than that per thread
+        let full_detail = VIO_SENT.with(|m| {
+            let mut m = m.borrow_mut();
+            let c = m.entry(sig.clone()).or_insert(0u32);
+            *c += 1;
+            *c <= 3
+        });
+        let detail = if full_detail {
             base(
                 "a farther peer is ranked ahead of a closer one of equal trust (full 256-bit XOR distance)",
                 json!({"ahead": show(a), "behind": show(b), "relation": how,
                        "distance_ahead": hex::encode(dist[a]), "distance_behind": hex::encode(dist[b])}),
-            ),
-        );
+            )
+        } else {
+            Value::Null
+        };
+        mon.violation(&sig, detail);
         ok = false;
     }
     // exclusion applies to peers below the floor only: with room left, an in-range peer that is
@@ -864,7 +880,7 @@ fn selector_case(mon: &Monitor, rng: &mut Rng, tp: &Arc<MapTrust>, tamper: u8) {
     if sel.len() < count.min(ids.len()) {
         tally("select.outcome.fewer-than-possible", 1);
     }
-    if ok && ids.len() >= 3 && ids.len() <= 6 && count >= 2 && rng.chance(0.01) && mon.want_sample() {
+    if ok && ids.len() >= 4 && ids.len() <= 6 && count >= 2 && count < ids.len() && cfg.exclude && sel.len() >= 2 && take_slot(1) {
         mon.sample(json!({"component": "TrustAwarePeerSelector", "config": format!("{cfg:?}"), "key": hex::encode(key), "count": count,
             "candidates": ids.iter().zip(&trust).map(|(i, t)| format!("{} trust={}", hex::encode(i), fmt_f(*t))).collect::<Vec<_>>(),
             "selected": sel.iter().map(hex::encode).collect::<Vec<_>>()}));
@@ -1139,7 +1155,7 @@ impl World {
                                    "find_nodes_k_prefix": e2.iter().map(hex::encode).collect::<Vec<_>>(), "history_tail": self.tail()}),
                         );
                     }
-                    if mon.want_sample() && tsize > K && !ids.is_empty() && self.pool.len() % 13 == 0 {
+                    if tsize > K && ids.len() == visible && !self.removed.is_empty() && take_slot(2) {
                         mon.sample(json!({"component": "engine, selection disabled", "api": api.name(), "key": hex::encode(key), "table_size": tsize,
                             "chosen": ids.iter().map(|i| hex8(i)).collect::<Vec<_>>(), "engine_find_nodes_prefix": e1.iter().map(|i| hex8(i)).collect::<Vec<_>>()}));
                     }
@@ -1164,10 +1180,10 @@ impl World {
                             ctx: json!({"local": hex::encode(self.local), "history_tail": self.tail()}),
                         },
                     );
-                    if ok && matches!(api, Api::Store) && mon.want_sample() && wide.len() > 4 && trust.iter().any(|t| *t < cfg.floor) && !ids.is_empty() && self.pool.len() % 7 == 0 {
+                    if ok && matches!(api, Api::Store) && wide.len() > 4 && wide.len() <= 12 && trust.iter().any(|t| *t < cfg.floor) && ids.len() >= 2 && take_slot(3) {
                         mon.sample(json!({"component": "engine, trust selection enabled", "api": api.name(), "key": hex::encode(key), "config": format!("{cfg:?}"),
-                            "candidates": wide.iter().zip(&trust).take(12).map(|(i, t)| format!("{} trust={}", hex8(i), fmt_f(*t))).collect::<Vec<_>>(),
-                            "stored_at": ids.iter().map(|i| hex8(i)).collect::<Vec<_>>()}));
+                            "candidates": wide.iter().zip(&trust).take(12).map(|(i, t)| format!("{} trust={}", hex::encode(i), fmt_f(*t))).collect::<Vec<_>>(),
+                            "stored_at": ids.iter().map(hex::encode).collect::<Vec<_>>()}));
                     }
                 }
             }
@@ -1327,7 +1343,7 @@ async fn engine_scenario(mon: &Monitor, rng: &mut Rng) {
                         _ => 0,
                     };
                     case_once(mon, ("removed", api.name(), how, bucket_of(&w.local, &v).unwrap_or(256) / 8, nclass, copies.min(3), w.trust_on.is_some()));
-                    if mon.want_sample() && rng.chance(0.02) {
+                    if matches!(api, Api::Find(_) | Api::Store) && take_slot(4) {
                         mon.sample(json!({"component": "engine, eviction", "api": format!("{api:?}"), "key": hex::encode(key), "removed": hex::encode(v), "how": how,
                             "answer_before": before.unwrap_or_default().iter().take(10).map(|i| hex8(i)).collect::<Vec<_>>(),
                             "answer_after": after.unwrap_or_default().iter().take(10).map(|i| hex8(i)).collect::<Vec<_>>()}));
@@ -1425,19 +1441,15 @@ fn main() {
         flush_tally(&mon);
         mon.finish();
     }
-    let rounds = mon.by_tier(450u64, 12_000);
+    // one-off parts first, so that their (minimal) witnesses are the ones kept in the replay files
+    long_failure_run(&mon);
+    directed_selector_cases(&mon, &Arc::new(MapTrust { m: parking_lot::RwLock::new(HashMap::new()), default: parking_lot::RwLock::new(0.0) }));
+    flush_tally(&mon);
+    let rounds = mon.by_tier(800u64, 12_000);
     let sel_per_round = 160u64;
-    vkit::run_shards(mon.shards(), mon.seed, |i, mut rng| {
-        if i == 0 {
-            let t0 = std::time::Instant::now();
-            long_failure_run(&mon);
-            tally("time_us.long_run", t0.elapsed().as_micros() as u64);
-        }
+    vkit::run_shards(mon.shards(), mon.seed, |_i, mut rng| {
         let rt = checks::rt(true); // paused clock: EigenTrustEngine::compute_global_trust sits in a 2 s tokio timeout
         let tp = Arc::new(MapTrust { m: parking_lot::RwLock::new(HashMap::new()), default: parking_lot::RwLock::new(0.0) });
-        if i == 0 {
-            directed_selector_cases(&mon, &tp);
-        }
         for r in 0..rounds {
             if mon.time_up() {
                 break;
